@@ -313,7 +313,10 @@ def pgpy_side(ctx, blobs, combos):
                         elif kind == 'text':
                             import pgpy
                             # every line-ending style, with and without trailing blanks before them (7.1: the blanks are not signed)
-                            t_ = ['a\r\nb\rc\n\nd', 'a \t\r\nb\t\r\n\r\nc  ', 'blanks then lf \nlf\t\n- dash \r\n', ' \r\n\t\r\nx\r\n', 'mixed \r\nlf \nend \t'][('MD5', 'SHA1', 'RIPEMD160', 'SHA224', 'SHA256', 'SHA384', 'SHA512').index(h) % 5]
+                            t_ = ['a\r\nb\rc\n\nd', 'a \t\r\nb\t\r\n\r\nc  ', 'blanks then lf \nlf\t\n- dash \r\n', ' \r\n\t\r\nx\r\n', 'mixed \r\nlf \nend \t',
+                                  # lines that END in white space other than SP / TAB: only those two are not signed (7.1)
+                                  'form feed\x0c\nno-break space\xa0\r\nideographic space\u3000\nunit separator\x1f\nvertical tab\x0b'][
+                                      {'MD5': 0, 'SHA1': 1, 'RIPEMD160': 2, 'SHA224': 3, 'SHA256': 5, 'SHA384': 4, 'SHA512': 5}[h]]
                             sig, subj = env.k.sign(pgpy.PGPMessage.new(t_, cleartext=True), hash=kw_h, created=env.now()), ('text', t_)
                         else:
                             sig, subj = env.k.certify(env.k.userattributes[0], hash=kw_h, created=env.now()), ('cert', env.k, len(env.k.userids))
